@@ -524,6 +524,70 @@ def misc_functions(repo, outdir):
     write(os.path.join(outdir, "AreaGen.lean"), "\n".join(out))
     return len(jobs)
 
+# ---------------------------------------------------------------------------------------------
+# the state-machine core of geo-types `Polygon` / `LineString::close` (C18)
+
+POLY = "geo-types/src/geometry/polygon.rs"
+LSRS = "geo-types/src/geometry/line_string.rs"
+
+def polysm_jobs():
+    RING, RINGS = "List α", "List (List α)"
+    st = {"muts": [("self_exterior", RING), ("self_interiors", RINGS)], "ret_ctor": "SM.State.mk",
+          "places": {"self.exterior": "self_exterior", "self.interiors": "self_interiors"},
+          "mut_methods": {"close": "lineStringClose"}}
+    pro = "  let self_exterior := self_.ext\n  let self_interiors := self_.ints\n"
+    # a closure parameter `F: FnOnce(&mut LineString<T>) [-> Result<(), E>]` is a function from the old ring to
+    # (new ring, result is Ok) — `SM.RingFn`; `F: FnOnce(&mut [LineString<T>])` cannot change the number of rings:
+    # its result is fitted back to the old length (`SM.fitLen`, what the borrow checker enforces) — `SM.RingsFn`
+    ringfn = {"f": {"state": "{r}.1", "value": "{r}.2"}}
+    ringsfn = {"f": {"state": "(SM.fitLen {x} {r}.1)", "value": "{r}.2"}}
+    return [
+        # (file, header, Lean name, params, ret, funcs, subst, prologue, opts)
+        (LSRS, r"pub fn close\(&mut self\) \{", "lineStringClose", "(self_ : List α)", RING, {}, [("self", "self_0")], "  let self_0 := self_\n",
+         {"muts": [("self_0", RING)], "ret_ctor": "id", "ret_type": RING, "places": {"self.0": "self_0"}, "debug_assert": "skip",
+          "accessors": {"is_closed": "(SM.isClosed {})", "is_empty": "{}.isEmpty"}}),
+        (POLY, r"pub fn new\(mut exterior: LineString<T>, mut interiors: Vec<LineString<T>>\) -> Self \{", "polygonNew",
+         "(exterior : List α) (interiors : List (List α))", "SM.State α", {}, [], "",
+         {"muts": [("exterior", RING), ("interiors", RINGS)], "ret_type": "SM.State α", "mut_methods": {"close": "lineStringClose"}}),
+        (POLY, r"pub fn exterior_mut<F>\(&mut self, f: F\)\s+where\s+F: FnOnce\(&mut LineString<T>\),\s*\{", "polygonExteriorMut",
+         "(self_ : SM.State α) (f : SM.RingFn α)", "SM.State α", {}, [], pro, dict(st, ret_type="SM.State α", fn_params=ringfn)),
+        (POLY, r"pub fn try_exterior_mut<F, E>\(&mut self, f: F\) -> Result<\(\), E>\s+where\s+F: FnOnce\(&mut LineString<T>\) -> Result<\(\), E>,\s*\{",
+         "polygonTryExteriorMut", "(self_ : SM.State α) (f : SM.RingFn α)", "SM.State α × Bool", {}, [], pro,
+         dict(st, ret_type="SM.State α × Bool", ret_both=True, fn_params=ringfn)),
+        (POLY, r"pub fn interiors_mut<F>\(&mut self, f: F\)\s+where\s+F: FnOnce\(&mut \[LineString<T>\]\),\s*\{", "polygonInteriorsMut",
+         "(self_ : SM.State α) (f : SM.RingsFn α)", "SM.State α", {}, [], pro, dict(st, ret_type="SM.State α", fn_params=ringsfn)),
+        (POLY, r"pub fn try_interiors_mut<F, E>\(&mut self, f: F\) -> Result<\(\), E>\s+where\s+F: FnOnce\(&mut \[LineString<T>\]\) -> Result<\(\), E>,\s*\{",
+         "polygonTryInteriorsMut", "(self_ : SM.State α) (f : SM.RingsFn α)", "SM.State α × Bool", {}, [], pro,
+         dict(st, ret_type="SM.State α × Bool", ret_both=True, fn_params=ringsfn)),
+        (POLY, r"pub fn interiors_push\(&mut self, new_interior: impl Into<LineString<T>>\) \{", "polygonInteriorsPush",
+         "(self_ : SM.State α) (new_interior : List α)", "SM.State α", {}, [], pro,
+         # `.into()` on something that already is a LineString: the identity
+         dict(st, ret_type="SM.State α", accessors={"into": "{}"}, mut_types={"new_interior": RING})),
+    ]
+
+def polysm_functions(repo, outdir):
+    """Gen/PolygonSMGen.lean: `LineString::close`, `Polygon::{new, exterior_mut, try_exterior_mut, interiors_mut, try_interiors_mut,
+    interiors_push}` as functions on the state `SM.State α`."""
+    import rsexpr
+    out = ["/- generated by translator/rs2lean.py (rsexpr, statement fragment) from %s and %s; do not edit -/" % (POLY, LSRS),
+           "import GeoModel.PolygonSM", "import GeoModel.TRANPrelude", "",
+           "namespace Geo.Gen", "open Geo", "set_option linter.unusedVariables false", "",
+           "variable {α : Type} [DecidableEq α] [Inhabited α]", ""]
+    cache = {}
+    jobs = polysm_jobs()
+    for (rel, hdr, name, params, ret, funcs, subst, pro, opts) in jobs:
+        if rel not in cache:
+            cache[rel] = strip_comments(open(os.path.join(repo, rel)).read())
+        try:
+            term = rsexpr.translate_fn(cache[rel], hdr, {}, funcs, subst, structs={"Self": ("SM.State.mk", ["exterior", "interiors"])}, opts=opts)
+        except rsexpr.TranslateError as e:
+            die("%s (%s): %s" % (name, rel, e))
+        out.append("/-- `%s` — %s -/" % (name, rel))
+        out.append("def %s %s : %s :=\n%s%s\n" % (name, params, ret, pro, term))
+    out += ["end Geo.Gen", ""]
+    write(os.path.join(outdir, "PolygonSMGen.lean"), "\n".join(out))
+    return len(jobs)
+
 ENDPT = {"p.start": "p1", "p.end": "p2", "q.start": "q1", "q.end": "q2"}
 
 def collinear_table(repo, outdir):
@@ -628,7 +692,8 @@ def main():
     nc = coordpos_functions(repo, outdir)
     nd = dims_functions(repo, outdir)
     nm = misc_functions(repo, outdir)
-    print("rs2lean: wrote Masks.lean (%d predicates), Enums.lean (%d op rules), CollinearTable.lean (%d rows), Kernel.lean (%d functions), AffineGen.lean (%d functions), RectGen.lean (%d functions), InterpGen.lean (%d functions), CoordPosGen.lean (%d functions), DimsGen.lean (%d functions), AreaGen.lean (%d functions)" % (len(fns), len(pairs), rows, nk, na, nr, ni, nc, nd, nm))
+    npg = polysm_functions(repo, outdir)
+    print("rs2lean: wrote Masks.lean (%d predicates), Enums.lean (%d op rules), CollinearTable.lean (%d rows), Kernel.lean (%d functions), AffineGen.lean (%d functions), RectGen.lean (%d functions), InterpGen.lean (%d functions), CoordPosGen.lean (%d functions), DimsGen.lean (%d functions), AreaGen.lean (%d functions), PolygonSMGen.lean (%d functions)" % (len(fns), len(pairs), rows, nk, na, nr, ni, nc, nd, nm, npg))
 
 if __name__ == "__main__":
     main()
